@@ -2,9 +2,9 @@
 from .lib import *
 
 RULE = ("for each output length n: q_max_input n, then one write of exactly that many bytes into n bytes of output must "
-        "consume all of it; advertised <= n; advertised non-decreasing in n. quick: every 7th n in 0..=3*10248+64 plus all "
+        "consume all of it, and a write offering n bytes bounds the advertisement from above; advertised <= n; advertised non-decreasing in n. quick: every 7th n in 0..=3*10248+64 plus all "
         "hex-digit / chunk boundaries +-3 and random larger n; thorough: every n in 0..=3*10248+64 (exhaustive) plus 2000 "
-        "random n up to 200000. Sized bodies: advertised = n and min(n, remaining) consumed. 60 values of n per script. "
+        "random n up to 200000; chunked bodies reached by explicit / default framing, HTTP/1.0, send_body_despite_method, on a redirected request, after a head written in tight segments. Sized bodies: advertised = n and min(n, remaining) consumed. 60 values of n per script. "
         "non-trivial = advertised > 0 and consumed completely; distinct = distinct n")
 TRUSTED_BASE = COMMON_TRUSTED_BASE
 ASSUMPTIONS = ["64-bit usize"]
@@ -38,6 +38,8 @@ def generate(rng, tier, mult):
             ops.append("q_max_input %s" % num(n))
             if calc_max_input(n) > 0:
                 ops.append("write_sum z%d %s" % (calc_max_input(n), num(n)))
+            if n > 0:
+                ops.append("write_sum z%d %s" % (n, num(n)))       # n bytes offered: what one write can take at most
         scripts.append({"ops": ops, "meta": {"kind": "chunked", "ns": ns[i:i + per]}})
     # chunked bodies reached in other ways: explicit Transfer-Encoding, Transfer-Encoding together with a Content-Length (chunked
     # wins, both orders), body-less method with send_body_despite_method
@@ -45,17 +47,38 @@ def generate(rng, tier, mult):
                 [op_new("PUT", "1.1", "http", "a.test", "/", [("transfer-encoding", "chunked"), ("content-length", "100000")])],
                 [op_new("POST", "1.1", "http", "a.test", "/", [("content-length", "100000"), ("transfer-encoding", "chunked")])],
                 [op_new("GET", "1.1", "http", "a.test", "/", []), "despite"]]
+    REDIR = b"HTTP/1.1 302 Found\r\nLocation: /next\r\nContent-Length: 0\r\n\r\n"
+    hop2 = [op_new("POST", "1.1", "http", "a.test", "/", [("content-length", "5")]), "proceed", "write_head #4096", "proceed",
+            "write_body %s #100" % hx(b"hello"), "proceed", "raw_try_response %s" % hx(REDIR), "proceed", "as_new_flow never", "follow"]
+    variants += [
+        # an HTTP/1.0 request frames its body chunked as well when no length is given
+        [op_new("POST", "1.0", "http", "a.test", "/", [])],
+        # the body of a redirected request (second hop) that is sent on request: chunked, whatever the previous hop's length was
+        hop2 + ["despite"],
+        # the request head written in segments, the last one leaving no room / one byte after the last header line
+        # (lines: 17 + 14 + 28 bytes, then the empty line)
+        [op_new("POST", "1.1", "http", "a.test", "/", []), "proceed", "write_head #17", "write_head #14", "write_head #28", "write_head #29"],
+        [op_new("POST", "1.1", "http", "a.test", "/", []), "proceed", "write_head #31", "write_head #29", "write_head #28"],
+    ]
     picks = sorted(boundaries() | {1, 2, 100, 5000, 10248, 20496 + 9})
     for v in variants:
-        ops = v + ["proceed", "write_head #4096", "proceed", "q_is_chunked"]
+        ops = v + (["proceed"] if "proceed" not in v[-5:] or v[-1] in ("despite",) else []) + ["write_head #4096", "proceed", "q_is_chunked"]
         for n in picks:
             ops.append("q_max_input %s" % num(n))
             if calc_max_input(n) > 0:
                 ops.append("write_sum z%d %s" % (calc_max_input(n), num(n)))
+            if n > 0:
+                ops.append("write_sum z%d %s" % (n, num(n)))
         scripts.append({"ops": ops, "meta": {"kind": "chunked", "ns": picks}})
-    # sized bodies
-    for n_total in [0, 1, 5, 1000, 70000]:
-        ops = [op_new("POST", "1.1", "http", "a.test", "/", [("content-length", str(n_total))]), "proceed", "write_head #4096", "proceed", "q_is_chunked"]
+    # sized bodies (the last two: a redirected request given a body and a new length on request; a head written in segments that
+    # end right after the last header line -- lines 17 + 14 + 23 bytes)
+    sized_starts = [([op_new("POST", "1.1", "http", "a.test", "/", [("content-length", str(t))]), "proceed", "write_head #4096", "proceed", "q_is_chunked"], t)
+                    for t in [0, 1, 5, 1000, 70000]]
+    sized_starts.append((hop2 + ["despite", "header %s %s" % (hx(b"content-length"), hx(b"70000")), "proceed", "write_head #4096", "proceed", "q_is_chunked"], 70000))
+    sized_starts.append(([op_new("POST", "1.1", "http", "a.test", "/", [("content-length", "70000")]), "proceed", "write_head #17", "write_head #14", "write_head #23",
+                          "write_head #24", "write_head #4096", "proceed", "q_is_chunked"], 70000))
+    for start, n_total in sized_starts:
+        ops = list(start)
         left = n_total
         for n in [0, 1, 2, 3, 100, 999, 1000, 1001, 20000]:
             ops.append("q_max_input %s" % num(n))
@@ -115,7 +138,13 @@ def oracle(script, obs):
             ci, co, _ = parse_counts(o)
             offered = len(unhex(p[1]))
             cap = unnum(p[2])
-            if script["meta"]["kind"] == "chunked":
+            if script["meta"]["kind"] == "chunked" and offered == cap and adv is not None and cap == last_n:
+                # n bytes were offered into n bytes of output: no write can consume more; an advertisement above that cannot be kept
+                # (offering more never reduces what is consumed: C19)
+                if adv > ci:
+                    fails.append("n=%d: advertised maximum %d, but a single write into %d bytes consumes at most %d" % (cap, adv, cap, ci))
+                    break
+            elif script["meta"]["kind"] == "chunked":
                 # the script offers the value the *formula* advertises; the implementation's own
                 # advertisement must not promise more than what a write consumes
                 if adv is not None and offered == adv and ci != adv:
